@@ -54,14 +54,32 @@ type hlJob struct {
 	Nil    []bool    `json:"nil,omitempty"` // format: entries of OT that are nil pointers
 	FStart int       `json:"a,omitempty"`
 	FEnd   int       `json:"b,omitempty"`
+	FTL    [][5]int  `json:"ftl,omitempty"` // complete: field id, term id, pos, start, end (field id 0 = "")
+}
+
+type hlTermLocs struct {
+	T    int      `json:"t"`
+	Locs [][3]int `json:"l"`
+}
+type hlFieldLocs struct {
+	F     int          `json:"f"`
+	Terms []hlTermLocs `json:"ts"`
 }
 
 type hlRes struct {
-	Panic string   `json:"p,omitempty"`
-	Strs  [][]byte `json:"s,omitempty"`
-	Locs  []hlLoc  `json:"l,omitempty"`
-	Nil   []bool   `json:"nil,omitempty"`
-	Score float64  `json:"sc,omitempty"`
+	Panic string        `json:"p,omitempty"`
+	Strs  [][]byte      `json:"s,omitempty"`
+	Locs  []hlLoc       `json:"l,omitempty"`
+	Nil   []bool        `json:"nil,omitempty"`
+	Score float64       `json:"sc,omitempty"`
+	Map   []hlFieldLocs `json:"map,omitempty"`
+}
+
+func hlFieldName(id int) string {
+	if id == 0 {
+		return ""
+	}
+	return fmt.Sprintf("f%04d", id)
 }
 
 // ---------------------------------------------------------------- child side
@@ -144,6 +162,39 @@ func hlExec(j *hlJob) (res hlRes) {
 	case "order":
 		for _, t := range highlight.OrderTermLocations(hlTLM(j.TLM)) {
 			res.Locs = append(res.Locs, hlLoc{t.Start, t.End})
+		}
+	case "complete":
+		dm := &search.DocumentMatch{}
+		for _, x := range j.FTL {
+			dm.FieldTermLocations = append(dm.FieldTermLocations, search.FieldTermLocation{
+				Field: hlFieldName(x[0]), Term: fmt.Sprintf("t%04d", x[1]),
+				Location: search.Location{Pos: x[2], Start: x[3], End: x[4]}})
+		}
+		dm.Complete(nil)
+		fields := make([]string, 0, len(dm.Locations))
+		for f := range dm.Locations {
+			fields = append(fields, f)
+		}
+		sort.Strings(fields) // "" sorts first = id 0
+		for _, f := range fields {
+			fl := hlFieldLocs{}
+			if f != "" {
+				fmt.Sscanf(f, "f%d", &fl.F)
+			}
+			terms := make([]string, 0, len(dm.Locations[f]))
+			for t := range dm.Locations[f] {
+				terms = append(terms, t)
+			}
+			sort.Strings(terms)
+			for _, t := range terms {
+				tl := hlTermLocs{}
+				fmt.Sscanf(t, "t%d", &tl.T)
+				for _, l := range dm.Locations[f][t] {
+					tl.Locs = append(tl.Locs, [3]int{l.Pos, l.Start, l.End})
+				}
+				fl.Terms = append(fl.Terms, tl)
+			}
+			res.Map = append(res.Map, fl)
 		}
 	default:
 		res.Panic = "unknown job kind"
@@ -692,7 +743,17 @@ func hlCheckProperty(orig []byte, m [][]hlLoc, fs, num int, htmlFmt bool, out []
 	if !hlDisjoint(pls, nil) {
 		return "fragments-overlap", "no assignment of disjoint pieces"
 	}
-	// the best fragment contains a match when one fits the fragment size
+	// the best fragment contains a match when one fits the fragment size; term locations produced by
+	// searching lie on rune boundaries (token offsets) - the clause is about those
+	onBoundary := map[int]bool{}
+	for _, b := range hlBoundaries(orig) {
+		onBoundary[b] = true
+	}
+	for _, l := range locs {
+		if !onBoundary[l[0]] || !onBoundary[l[1]] {
+			return "", ""
+		}
+	}
 	fits := false
 	for _, l := range locs {
 		if l[0] < l[1] && utf8.RuneCount(orig[l[0]:l[1]]) <= fs {
@@ -876,7 +937,7 @@ func hlStrs(bs [][]byte) []string {
 
 func runHighlight(o Opts) error {
 	rng := rand.New(rand.NewSource(o.Seed))
-	w := cq.New(o.Out, "From Bluge Require Import Base.Res Search.Highlight Search.HighlightCorr.", "hcase", 60)
+	w := cq.New(o.Out, "From Bluge Require Import Base.Res Search.Highlight Search.HighlightCorr.", "hcase", 120)
 	defer w.Close()
 	scale := 1
 	if o.Thorough() {
@@ -926,7 +987,7 @@ func runHighlight(o Opts) error {
 	}
 
 	// ---- 1. utf8 primitives (Base/UTF8.v)
-	nU := 300 * scale
+	nU := 200 * scale
 	for i := 0; i < nU; i++ {
 		var p []byte
 		switch rng.Intn(5) {
@@ -985,7 +1046,7 @@ func runHighlight(o Opts) error {
 		}
 		w.Count("real_search_hits:"+spec.name, len(hits))
 		for hi, h := range hits {
-			if !o.Thorough() && hi >= 40 {
+			if !o.Thorough() && hi >= 32 {
 				break
 			}
 			if !wellFormed(h.text, h.m) {
@@ -1007,7 +1068,7 @@ func runHighlight(o Opts) error {
 	}
 
 	// ---- 3. generated well-formed locations on generated texts (valid UTF-8), incl. overlapping ones
-	nG := 160 * scale
+	nG := 120 * scale
 	for i := 0; i < nG; i++ {
 		target := rng.Intn(200)
 		if rng.Intn(10) == 0 {
@@ -1025,7 +1086,7 @@ func runHighlight(o Opts) error {
 	}
 
 	// ---- 4. adversarial locations and invalid texts: no panic + correspondence
-	nA := 220 * scale
+	nA := 160 * scale
 	for i := 0; i < nA; i++ {
 		orig := []byte(hlText(rng, rng.Intn(60), rng.Intn(3), true))
 		if rng.Intn(3) == 0 {
@@ -1070,7 +1131,7 @@ func runHighlight(o Opts) error {
 	best("best-nested", []byte("abcdef ghij"), [][]hlLoc{{{0, 6}}, {{1, 3}}}, 200, 1, false, false)
 
 	// ---- 5. components called directly with explicit (possibly unsorted / adversarial) lists
-	nC := 140 * scale
+	nC := 100 * scale
 	for i := 0; i < nC; i++ {
 		orig := []byte(hlText(rng, rng.Intn(120), rng.Intn(3), true))
 		if rng.Intn(5) == 0 {
@@ -1171,6 +1232,56 @@ func runHighlight(o Opts) error {
 			}
 			w.Add(fmt.Sprintf("COrder %s %s", hlMap(m), cq.IntList(starts)), "order", len(starts) > 1, map[string]interface{}{"m": m})
 		}
+	}
+	// ---- 6. DocumentMatch.Complete on hand-made FieldTermLocations (what the collectors call on every hit)
+	nK := 60 * scale
+	for i := 0; i < nK; i++ {
+		n := rng.Intn(13)
+		ftl := make([][5]int, 0, n)
+		fld := 1 + rng.Intn(3)
+		pos := 1
+		for k := 0; k < n; k++ {
+			if rng.Intn(4) == 0 {
+				fld = 1 + rng.Intn(3)
+			}
+			if rng.Intn(25) == 0 {
+				fld = 0 // the empty field name
+			}
+			switch rng.Intn(6) {
+			case 0: // same position again: a duplicate
+			case 1:
+				pos = 1 + rng.Intn(6) // out of order
+			default:
+				pos++
+			}
+			ftl = append(ftl, [5]int{fld, 1 + rng.Intn(3), pos, pos * 3, pos*3 + 2})
+		}
+		r := child.call(&hlJob{Kind: "complete", FTL: ftl})
+		items := make([]string, len(ftl))
+		for k, x := range ftl {
+			items[k] = fmt.Sprintf("(%d, %d, (%d, %d, %d))", x[0], x[1], x[2], x[3], x[4])
+		}
+		out := cq.None()
+		if r.Panic == "" {
+			fs := make([]string, len(r.Map))
+			for a, fl := range r.Map {
+				ts := make([]string, len(fl.Terms))
+				for b, tl := range fl.Terms {
+					ls := make([]string, len(tl.Locs))
+					for c, l := range tl.Locs {
+						ls[c] = fmt.Sprintf("(%d, %d, %d)", l[0], l[1], l[2])
+					}
+					ts[b] = fmt.Sprintf("(%d, %s)", tl.T, cq.List(ls))
+				}
+				fs[a] = fmt.Sprintf("(%d, %s)", fl.F, cq.List(ts))
+			}
+			out = cq.Some(cq.List(fs))
+		} else if len(ftl) == 0 || ftl[0][0] != 0 || !strings.Contains(r.Panic, "nil map") {
+			// the only panic Complete has: first location of a field named "" (outside the property: no query
+			// yields it); anything else is reported
+			w.OracleFail("complete-panic", "DocumentMatch.Complete: "+r.Panic, ftl)
+		}
+		w.Add(fmt.Sprintf("CComplete %s %s", cq.List(items), out), "complete", len(ftl) > 1, map[string]interface{}{"ftl": ftl, "panic": r.Panic})
 	}
 	w.Count("child_starts", child.starts)
 	return nil
